@@ -25,9 +25,14 @@ def tree_params(rng, algo):
         if rng.random() < 0.08:
             # the corner where the published clamp min(1, c1*delta/t+) really binds: c1 = (rho/(3 nu))^(1/8) > 1 and
             # delta close to 1
+            # (a third of them with nu down to 1e-6 and a small c: c1*delta > 2, 4, ... - the clamp then binds in the
+            # refresh rounds t+ = 2, 4 as well; c keeps the thresholds reachable although nu is tiny)
             P["nu"] = float(10 ** rng.uniform(-2, -1))
             P["rho"] = float(rng.uniform(0.5, 0.95))
             P["delta"] = float(rng.uniform(0.85, 0.995))
+            if rng.random() < 0.35:
+                P["nu"] = float(10 ** rng.uniform(-6, -2))
+                P["c"] = float(P["nu"] * 10 ** rng.uniform(-0.5, 1.0))
         # (c1*delta > 1/2 is allowed: there only the rounds with t+ = 1 (t+ <= 2 if c1*delta > 1) are not judged)
         return P
     raise RuntimeError("unreachable")
